@@ -46,9 +46,14 @@ def pool_chunks():
     core = [by_base[k] for k in core_keys if k in by_base]
     used = {G.spec_key(e["spec"]) for e in core}
     rest = {"A": [], "B": [], "C": []}
+    finfo = sup.get("functors", {})
     for e in sup["supported"]:
-        if G.spec_key(e["spec"]) not in used:
-            rest[e["spec"]["t"]].append(e)
+        sp = e["spec"]
+        if G.spec_key(sp) in used:
+            continue
+        if sp["t"] == "A" and sp["f"] in finfo and not finfo[sp["f"]].get("shape_ok") and all(k[0] == "d" for k in sp["leaves"]):
+            continue    # the direct view call itself dies with run-time shapes (conv*): nothing to compare
+        rest[sp["t"]].append(e)
     # kind A: every chunk mixes functor families (round-robin over the families)
     fams = {}
     for e in sorted(rest["A"], key=lambda e: G.spec_key(e["spec"])):
@@ -131,7 +136,7 @@ def run(ctx):
     n_graphs = 0
     n_applies = 0
     n_operands = 0
-    skipped = dict(no_args=0, ref_nothing=0, shape_model=0)
+    skipped = dict(no_args=0, ref_nothing=0, ref_dies=0, shape_model=0)
     families_seen = set()
     classes_seen = set()
     crashes_total = 0
@@ -149,13 +154,20 @@ def run(ctx):
                     skipped["no_args"] += 1
                     continue
                 toks = G.case_tokens(spec, case)
+                trees, _ = G.spec_tree(spec)
+                ref_id = None
+                if len(trees) == 1 and not G.is_leaf(trees[0]):
+                    cid += 1
+                    ref_id = str(cid)
+                    cases.append((str(cid), "%d %sr %s" % (cid, opname, toks)))
+                    meta[str(cid)] = dict(spec=spec, case=case, part="ref", op=opname + "r", ref=None)
                 cid += 1
                 cases.append((str(cid), "%d %s %s" % (cid, opname, toks)))
-                meta[str(cid)] = dict(spec=spec, case=case, part="main", op=opname)
+                meta[str(cid)] = dict(spec=spec, case=case, part="main", op=opname, ref=ref_id)
                 if spec["t"] == "C":
                     cid += 1
                     cases.append((str(cid), "%d %sx %s" % (cid, opname, toks)))
-                    meta[str(cid)] = dict(spec=spec, case=case, part="apply", op=opname + "x")
+                    meta[str(cid)] = dict(spec=spec, case=case, part="apply", op=opname + "x", ref=ref_id)
         results, crashes, touts = R.run_cases(built.binary, cases, nbatch=min(4, max(1, len(cases) // 6)), timeout=900)
         for tmo in touts:
             ctx.inconc("timeout in %s" % (describe(meta[tmo]["spec"]) if tmo in meta else tmo))
@@ -166,8 +178,29 @@ def run(ctx):
                 crashed[c.case_id] = c
             else:
                 ctx.violation("runner:crash_outside_case:%s" % c.kind(), "generated program died outside a case: %s" % c.kind(), dict(stderr=c.stderr[-3000:]))
+        # a case whose direct view call alone dies / throws / is Nothing is outside C14 (argument validity: C15)
+        ref_bad = set()
         for cid_, line in cases:
             m = meta[cid_]
+            if m["part"] != "ref":
+                continue
+            if cid_ in crashed or cid_ not in results or "EXC" in results[cid_]:
+                ref_bad.add(cid_)
+                skipped["ref_dies"] += 1
+                continue
+            rt, _ = split_hooks(results[cid_])
+            try:
+                r = E.parse_ab(rt)[0]
+                if r is None or r[0] != "arr" or r[2] is None:
+                    ref_bad.add(cid_)
+                    skipped["ref_nothing"] += 1
+            except (ValueError, IndexError):
+                ref_bad.add(cid_)
+                skipped["ref_dies"] += 1
+        for cid_, line in cases:
+            m = meta[cid_]
+            if m["part"] == "ref" or m.get("ref") in ref_bad:
+                continue
             spec, case = m["spec"], m["case"]
             det = dict(expression=describe(spec), spec=spec, leaf_shapes=case["leaf_shapes"], attrs=case["attr_vals"], line=line[:2000])
             if cid_ in crashed:
@@ -350,7 +383,8 @@ def check_c_main(ctx, spec, case, toks, det, skipped, classes_seen, finfo):
         # the library's internal tree is not known to the generator: every extracted operand must be one of the leaves, every leaf must occur
         na = 1
         got = rec["ops"]
-        bad = [g for g in got if not any(E.operand_matches(e, g) for e in exp_ops)]
+        # (numbers that are not leaves are internal constants of the composite view, e.g. the divisor of mean)
+        bad = [g for g in got if g[0] != "S" and not any(E.operand_matches(e, g) for e in exp_ops)]
         missing = [e for e in exp_ops if not any(E.operand_matches(e, g) for g in got)]
         if bad or missing:
             ctx.violation("extract:operands:composite_view:operand_identity", "get_function_operands(%s) = %s, leaves are %s" % (describe(spec), got, exp_ops), det)
